@@ -1,12 +1,13 @@
 ------------------------------ MODULE MC_Session ------------------------------
 EXTENDS Integers, Sequences, FiniteSets, TLC, TLCExt, Json, CSV, IOUtils, SequencesExt
-CONSTANTS MaxOps, Emit
-VARIABLES hist, memo, heap, last
+CONSTANTS MaxOps, Emit, Family, Variant
+VARIABLES hist, memo, heap, last, seen
 S == INSTANCE Session
 Init == S!Init
 Next == Len(hist) < MaxOps /\ \E op \in S!Ops : S!Do(op)
-Spec == Init /\ [][Next]_<<hist, memo, heap, last>>
+Spec == Init /\ [][Next]_<<hist, memo, heap, last, seen>>
 Det == S!Det
+Indep == S!Indep
 Frame == S!Frame
 Out == IOEnv.OUT_FILE
 EmitCase == (Emit /\ hist # <<>>) => CSVWrite("%1$s", <<ToJson([hist |-> hist])>>, Out)
